@@ -1575,7 +1575,12 @@ fn build_audio_specific_config(sample_rate: u32, channels: u16) -> [u8; 2] {
         _ => 4,
     };
     let aot = 2u8;
-    let chan = (channels.min(15) as u8) & 0x0f;
+    // channelConfiguration is an index, not a count: 1..=6 map to themselves, 8 channels
+    // (7.1) is configuration 7 (ISO/IEC 14496-3 table 1.19).
+    let chan = match channels {
+        8 => 7u8,
+        n => (n.min(15) as u8) & 0x0f,
+    };
     let byte0 = (aot << 3) | (sfi >> 1);
     let byte1 = ((sfi & 1) << 7) | (chan << 3);
     [byte0, byte1]
